@@ -21,9 +21,18 @@
     [C13_known_findings_fail] (the 13 known findings), and the
     bounded-exhaustive [C13_active_orderings_bounded] (every string of length
     <= 3 over the ten active characters, a letter and a space).
-    NOT PROVED: strict parseability / inertness of the output for arbitrary
-    strings (comment before [C13_parses_inert_partial]); carried by the
-    differential correspondence and the oracle on the real code only. *)
+    THE CENTRAL CLAUSE OVER ALL STRINGS: [C13_parses_inert_unbounded] — for every
+    string (no length bound), both tables, the four brace-protection schemes,
+    the five named unknown-character policies: the output parses in strict
+    mode and contains no comment, no environment, and math only from table
+    entries that contain [$] (excluded: the 13 known findings).  Proofs in
+    [Proofs/Unbounded*.v]: the follow-string factorisation of the side
+    conditions of C02's extended grammar ([C13_side_conditions_factorise]),
+    per-chunk sweeps over both tables, an assembler that cuts whitespace runs,
+    paragraph breaks and specials sequences ACROSS chunk boundaries, C02's round
+    trip [C02_parse_unparse2_partial].  Scheme 'none' is outside the theorem:
+    [C13_scheme_none_counterexample] (a control word fuses with the letters that
+    follow: documented as unsafe). *)
 From Coq Require Import NArith List Bool Arith String.
 Local Open Scope string_scope.
 Local Open Scope list_scope.
@@ -31,6 +40,8 @@ From PLV Require Import Base.PyStr Enc.Encoder Enc.Builtin Enc.RoundTrip.
 From PLV Require Import Proofs.EncBuiltinFacts Proofs.RoundTripDefs Proofs.InertDefs.
 From PLV Require Import Proofs.InertSweeps Proofs.InertSweepActive Proofs.InertTheorems.
 From PLV Require Import Gen.GenBaseline.
+From PLV Require Import Tok.PState Parse.Parser Doc.DocGrammar2.
+From PLV Require Import Proofs.UnboundedDefs Proofs.UnboundedFollow Proofs.UnboundedChunks Proofs.UnboundedTheorems.
 Import ListNotations.
 Local Open Scope N_scope.
 
@@ -114,7 +125,10 @@ Theorem C13_active_orderings_bounded : forall xml p pol s,
   exists t, encode_builtin xml p pol s = EncOk t /\ parse_encoded t = IParsed 0 0 0.
 Proof. exact active_orderings_bounded. Qed.
 
-(** ** The unbounded statement — NOT PROVED
+(** ** The unbounded statement for ONE-CHARACTER strings under all FIVE schemes
+    (kept; superseded for the four brace schemes by [C13_parses_inert_unbounded]
+    below; this one includes scheme 'none').  The obligations listed here are
+    the ones [Proofs/Unbounded*.v] discharge for the brace schemes.
 
     DESIGN §6/C13:
 
@@ -149,7 +163,108 @@ Theorem C13_parses_inert_partial : forall xml p pol c,
               (m <> O -> exists r, In (c, r) (table_of xml) /\ In 36 r).
 Proof. exact one_character_inert. Qed.
 
+(** ** THE CENTRAL CLAUSE FOR EVERY STRING
+
+    For every string [s] (any length), either table, each of the four
+    brace-protection schemes, each of the five named unknown-character policies
+    ([named_policy]: not an arbitrary callable; under 'fail' the hypothesis
+    [EncOk] says that no character is unknown): if no character of [s] is one
+    of the 13 known findings, the encoder output parses in STRICT mode (hence
+    with balanced groups) and its tree contains NO comment node, NO environment
+    node, and [m] math nodes where [m <> 0] only if [s] contains a character
+    whose table replacement itself contains [$].
+
+    How: the output is the concatenation of per-character chunks
+    ([C13_encoding_is_chunkwise]).  Every chunk is read as atoms (top-level
+    characters and structured items: groups, macro calls, [$]-math); the
+    sweeps ([Proofs/UnboundedSweep*.v], every entry of both tables x 4 schemes)
+    check that each structured item satisfies the side conditions of C02's
+    extended grammar when followed by the rest of its chunk and is CLOSED — so,
+    by the follow-string factorisation below, it satisfies them whatever
+    follows the chunk.  The assembler ([UnboundedDefs.asm]) turns the atoms of
+    the WHOLE output into one document of the grammar, cutting whitespace runs,
+    paragraph breaks, text characters and specials sequences (two apostrophes,
+    three hyphens) across chunk boundaries exactly as the tokenizer does; its
+    side conditions are proved for every atom list ([UnboundedAsm.assemble]).
+    C02's round trip gives the strict parse; [UnboundedCount.tree_kinds] counts
+    the node kinds.  The policy chunks are proved for ARBITRARY code points
+    ('keep': any character, blank or not; 'unihex': any number of hex digits). *)
+Theorem C13_parses_inert_unbounded : forall xml p pol s t,
+  In p brace_prots -> named_policy pol ->
+  (forall c, In c s -> ~ In c (excluded xml)) ->
+  encode_builtin xml p pol s = EncOk t ->
+  exists m, parse_encoded t = IParsed 0 0 m /\
+            (m <> O -> exists c r, In c s /\ In (c, r) (table_of xml) /\ In 36 r).
+Proof. exact parses_inert_unbounded. Qed.
+
+(** ** The follow-string factorisation of the side conditions of the extended
+    document grammar (every context, state, item of the sub-grammar [subg]: text,
+    groups, macro calls with any arguments, math, specials, paragraph breaks): the
+    verdict of [ok_item2] depends on the follow string only up to its first
+    STOPPER character ([stopper]: not whitespace, not a letter, not an
+    environment-name character, not the escape character or an opening brace, in
+    no specials sequence of the context — the closing brace and the dollar under
+    the default context).  This is what makes a per-chunk check with the EMPTY
+    follow string valid for every follow string. *)
+Theorem C13_side_conditions_factorise : forall cx i ps ex (G Z Z' : str),
+  subg i = true -> has_stopper cx G = true ->
+  ok_item2 cx ps ex i (G ++ Z) = ok_item2 cx ps ex i (G ++ Z').
+Proof. exact ok_item2_stopper. Qed.
+
+(** ** Scheme 'none' is outside the theorem, and must be: the replacement [\l]
+    of U+0142 followed by the letters [abel] is the control word [\label], whose
+    mandatory argument is missing at the end of the input — a strict parse error
+    (documented: "not recommended, will likely result in invalid LaTeX").  Under
+    'braces' the same input gives [{\l}abel]. *)
+Example C13_scheme_none_counterexample :
+  encode_builtin false PNone UKeep [322; 97; 98; 101; 108] = EncOk (lit "\label") /\
+  (forall c, In c [322; 97; 98; 101; 108] -> ~ In c (excluded false)) /\
+  parse_encoded (lit "\label") = IParseError (Some 6%nat) /\
+  encode_builtin false PBraces UKeep [322; 97; 98; 101; 108] = EncOk (lit "{\l}abel") /\
+  parse_encoded (lit "{\l}abel") = IParsed 0 0 0.
+Proof.
+  split; [vm_compute; reflexivity|]. split; [intros c _ []|].
+  split; [vm_compute; reflexivity|]. split; vm_compute; reflexivity.
+Qed.
+
 (** ** Non-vacuity *)
+
+(** the string: a, percent, backslash, e-acute, blank, apostrophe, double quote, two
+    newlines, dollar, blank, three hyphens, blank, tilde, x, U+4E2D, U+000B — active
+    characters, an accent, an apostrophe followed by the double quote (whose
+    replacement, two apostrophes, makes three, cut as two + one ACROSS the chunk
+    boundary), a paragraph break, hyphens forming one specials sequence, an unknown
+    character and an unknown BLANK under 'keep'; and under 'unicode-xml' with
+    'unihex' the one entry with math, U+03AC *)
+Example C13_parses_inert_unbounded_nonvacuous :
+  let s := [97; 37; 92; 233; 32; 39; 34; 10; 10; 36; 32; 45; 45; 45; 32; 126; 120; 20013; 11] in
+  let t := lit "a\%{\textbackslash}\'e '''" ++ [10; 10] ++ lit "\$ --- {\textasciitilde}x" ++ [20013; 11] in
+  let t' := lit "\'{$\alpha$}\ensuremath{\langle}\texttt{U+4E2D}\ensuremath{\rangle}" in
+  In PBraces brace_prots /\ named_policy UKeep /\ (forall c, In c s -> ~ In c (excluded false)) /\
+  encode_builtin false PBraces UKeep s = EncOk t /\
+  parse_encoded t = IParsed 0 0 0 /\
+  encode_builtin true PBracesAfterMacro UUnihex [940; 20013] = EncOk t' /\
+  parse_encoded t' = IParsed 0 0 1 /\
+  In (940, lit "\'{$\alpha$}") (table_of true).
+Proof.
+  cbv zeta. split; [left; reflexivity|]. split; [exact I|].
+  split; [intros c _ []|]. split; [vm_compute; reflexivity|]. split; [vm_compute; reflexivity|].
+  split; [vm_compute; reflexivity|]. split; [vm_compute; reflexivity|].
+  apply map_of_find. vm_compute. reflexivity.
+Qed.
+
+(** the factorisation is about real dependence: WITHOUT a stopper in the common prefix the
+    verdict does change — [\alpha] followed by a closing brace is fine whatever comes then,
+    followed by a letter it is not *)
+Example C13_side_conditions_factorise_nonvacuous :
+  let alpha := Mac2 [] (lit "alpha") [] [] in
+  subg alpha = true /\ has_stopper Gen.GenWalkerCtx.default_ctx [125] = true /\
+  ok_item2 Gen.GenWalkerCtx.default_ctx ps0 [] alpha ([125] ++ [120]) = true /\
+  ok_item2 Gen.GenWalkerCtx.default_ctx ps0 [] alpha ([125] ++ []) = true /\
+  ok_item2 Gen.GenWalkerCtx.default_ctx ps0 [] alpha [120] = false /\
+  has_stopper Gen.GenWalkerCtx.default_ctx [120] = false.
+Proof. vm_compute. repeat split. Qed.
+
 Example C13_ascii_nonvacuous :
   In PBraces all_prots /\ In UUnihex ascii_policies /\
   encode_builtin false PBraces UUnihex [233; 20013; 128512]
@@ -220,3 +335,5 @@ Print Assumptions C13_known_findings_fail.
 Print Assumptions C13_known_findings_are_exact.
 Print Assumptions C13_active_orderings_bounded.
 Print Assumptions C13_parses_inert_partial.
+Print Assumptions C13_parses_inert_unbounded.
+Print Assumptions C13_side_conditions_factorise.
